@@ -3,6 +3,7 @@
 cd "$(dirname "$0")" || exit 2
 export GOFLAGS=-mod=mod GOPROXY=off GOSUMDB=off GOTOOLCHAIN=local
 mkdir -p bin evidence replays
-go build -o bin/vcheck ./cmd/vcheck || exit 1
+tools/mkoverlay.sh bin/overlay.json
+go build -tags verif -overlay bin/overlay.json -o bin/vcheck ./cmd/vcheck || exit 1
 go vet ./engine/... ./ref/... >/dev/null 2>&1
 echo setup ok
